@@ -82,6 +82,7 @@ TInvalidRV(id)  == [T0 EXCEPT !.k = "invalidrv", !.id = id]                  \* 
 TSStr(id, b)    == [T0 EXCEPT !.k = "sstr", !.id = id, !.b = b]              \* interfaces.SafeString: string kind + SafeValue
 TComplex(id)    == [T0 EXCEPT !.k = "complex", !.id = id]
 TTSlice(id, xs) == [T0 EXCEPT !.k = "tslice", !.id = id, !.xs = xs]
+TTArray(id, xs) == [T0 EXCEPT !.k = "tarray", !.id = id, !.xs = xs]           \* [N]T: printed like []T (never nil; no %p)
 TTMap(id, kvs)  == [T0 EXCEPT !.k = "tmap", !.id = id, !.xs = kvs]
 \* an object: named int type (value n) with the methods in caps
 TObj(id, caps, scr, fscr, ret, pan) ==
@@ -499,7 +500,7 @@ PrintKind(ps0, v, verb, depth, ro) ==
                          ELSE W(PrintSeq(W(ps, <<91>>), v.xs, verb, depth, ro, <<SP>>, 1), <<93>>)
     \* []T with a concrete T: the elements go straight to printValue (depth+1); a uint8-kinded T with
     \* s q x X is a byte string (fmtBytes) whatever methods T has
-    [] v.k = "tslice" -> IF verb \in {VS, VQ, VX, VXX} /\ Len(v.xs) > 0 /\ v.xs[1].k = "obj" /\ "U8" \in v.xs[1].caps
+    [] v.k \in {"tslice", "tarray"} -> IF verb \in {VS, VQ, VX, VXX} /\ Len(v.xs) > 0 /\ v.xs[1].k = "obj" /\ "U8" \in v.xs[1].caps
                          THEN UnsafeRend(ps, "val", v, verb)
                          ELSE IF ps.fl.sharpV
                          THEN W(PrintTSeq(W(Rend(ps, "typename", v, VS, 0), <<123>>), v.xs, verb, depth, ro, CommaSpace, 1), <<125>>)
@@ -517,7 +518,7 @@ PrintKind(ps0, v, verb, depth, ro) ==
                          LET a == IF ps.fl.sharpV THEN Rend(ps, "typename", v, VS, 0) ELSE ps
                              sv == [v EXCEPT !.k = "struct", !.ro = <<TRUE>>]
                          IN W(PrintFields(W(a, <<123>>), sv, verb, depth, ro, 1), <<125>>)
-    [] v.k = "ptrto"  -> IF depth = 0 /\ v.xs[1].k \in {"slice", "struct", "map", "tslice", "tmap"} THEN PrintValue(W(ps, <<38>>), v.xs[1], verb, depth + 1, ro)
+    [] v.k = "ptrto"  -> IF depth = 0 /\ v.xs[1].k \in {"slice", "struct", "map", "tslice", "tmap", "tarray"} THEN PrintValue(W(ps, <<38>>), v.xs[1], verb, depth + 1, ro)
                          ELSE FmtPointer(ps, v, verb)
     [] v.k = "nilptr" -> FmtPointer(ps, v, verb)
     [] OTHER          -> ps
